@@ -137,6 +137,11 @@ def run(chk):
     r5.floor("send sites (sendall + send-helper calls)", n_send + n_helper_calls, 3)
     r5.floor("sendall sites", n_send, 1)
     r5.floor("recv sites", n_recv, 1)
+    # ------------------------------------------------------------------ R6 segmentation (the C03 rules)
+    r6 = chk.rule("C01.R6", "whatever way the reply is cut into pieces, the same bytes are consumed: the carry-over rules of the readers (C03.R1 no received byte dropped, C03.R4 the end-token search sees all unconsumed bytes)")
+    from . import rules_C03, report
+
+    report.include_rules(chk, r6, rules_C03, ("C03.R1", "C03.R4"), "a reply that arrives in several pieces is consumed like one that arrives whole")
     chk.assume("Client.close does not raise ordinary exceptions (C06.R6)")
     chk.assume("the server answers each command with the number of reply lines the protocol defines")
 
